@@ -26,6 +26,17 @@ def main() -> int:
     mod = importlib.import_module(f"props.{prop.lower()}")
     ctx = Ctx(prop, args.tier, seed)
 
+    # Source drift (DESIGN §2.3): the pyhap files this property is anchored in differ (by AST) from
+    # the tree the hand-written model was last validated against -> larger correspondence / oracle
+    # budget for this run.  Never a violation by itself.
+    import drift
+
+    anchored, other = drift.drift_for(prop, common.REPO, common.VERIF)
+    ctx.drift = {"anchored_files_changed": anchored, "other_files_changed": other}
+    if (anchored or other) and ctx.quick and not args.replay:
+        ctx.budget_scale = float(os.environ.get("VERIF_DRIFT_SCALE", "3.0" if anchored else "1.5"))
+        log(f"[{prop}] source drift: {', '.join(anchored + other)} differ from model_map.json -> budget x{ctx.budget_scale}")
+
     # Watchdog: a run that does not finish (e.g. the implementation under check hangs in a place the
     # property's own harness does not bound) ends as an infrastructure failure, never as a verdict.
     import threading
